@@ -189,17 +189,22 @@ def gen_case(rng, directed=None):
         filters.append(dict(name='F%d' % len(filters), cen=cen, wav=fw, resp=[float('%.3g' % (r * scale)) for r in resp],
                             normalize=normalize, kind=kind))
     # extinction law: strictly decreasing opacity, clearly different coefficients at the filters
-    for attempt in range(60):
-        tw = sorted({0.02, 9000.} | {nice(rng, 0.05, 5000., 3) for _ in range(rng.randint(4, 10))})
+    tw = chi = None
+    for attempt in range(200):
+        tw_c = sorted({0.02, 9000.} | {nice(rng, 0.05, 5000., 3) for _ in range(rng.randint(4, 10))})
         top = nice(rng, 1e3, 1e5, 3)
         beta = rng.uniform(0.3, 0.9) if attempt < 40 else 0.6
-        chi = sorted({float('%.3g' % (top * (w / 0.02) ** (-beta) * 10 ** rng.uniform(-0.05, 0.05))) for w in tw}, reverse=True)
-        if len(chi) != len(tw):
-            continue
-        kk = [-0.4 * float(np.interp(f['cen'], tw, chi)) / float(np.interp(0.55, tw, chi)) for f in filters]
+        chi_c = sorted({float('%.3g' % (top * (w / 0.02) ** (-beta) * 10 ** rng.uniform(-0.05, 0.05))) for w in tw_c}, reverse=True)
+        if len(chi_c) != len(tw_c):
+            continue                        # two equal opacities: the law must be strictly decreasing
+        kk = [-0.4 * float(np.interp(f['cen'], tw_c, chi_c)) / float(np.interp(0.55, tw_c, chi_c)) for f in filters]
         gaps = [abs(a - b) for i, a in enumerate(kk) for b in kk[i + 1:]]
+        tw, chi = tw_c, chi_c
         if min(gaps) >= 0.02:
             break
+    if tw is None:
+        tw = [0.02, 0.1, 0.55, 3., 30., 300., 9000.]
+        chi = [float('%.3g' % (3e4 * (w / 0.02) ** -0.6)) for w in tw]
     av_kind = directed.get('av', rng.choice(['wide', 'wide', 'pos', 'narrow', 'point']))
     if av_kind == 'wide':
         av = [-round(rng.uniform(20, 60), 1), round(rng.uniform(20, 80), 1)]
